@@ -28,6 +28,11 @@ Lemma rounding_places_guarded :
   /\ List.length rounding_guarded = 3%nat.
 Proof. vm_compute. repeat split; reflexivity. Qed.
 
+(* the three base argument-count checks of wrappers.go, RUN by the translator's interpreter on a grid of
+   (min, max, count), decide as min_max_args of the model does *)
+Lemma base_arity_checks_as_model : forallb snd base_arity_checks = true /\ List.length base_arity_checks = 3%nat.
+Proof. vm_compute. split; reflexivity. Qed.
+
 (* the limit on decimal exponents is in the source and is the model's; Multiply starts with the exponent guard,
    Divide and Mod start with the zero-divisor guard, Exponent with its three guards *)
 Lemma operator_guards_in_source :
